@@ -175,6 +175,18 @@ pub fn replay(case: &Value) -> Result<(), String> {
     if let Some(r) = replay_delegate("C11", case) {
         return r;
     }
+    if let Some(env_name) = case["nostd_grid"].as_str() {
+        let bin = std::env::var(env_name).map_err(|_| format!("{} not set", env_name))?;
+        let out = std::process::Command::new(&bin).arg("--kernel-grid").arg("320").output().map_err(|e| e.to_string())?;
+        let so = String::from_utf8_lossy(&out.stdout).to_string();
+        if let Some(l) = so.lines().find(|l| l.starts_with("GRID-FAIL")) {
+            return Err(l.to_string());
+        }
+        if !so.lines().any(|l| l.starts_with("GRID-DONE")) {
+            return Err("kernel grid crashed".into());
+        }
+        return Ok(());
+    }
     replay_case(case, false)
 }
 
@@ -185,6 +197,29 @@ pub fn run(ctx: &Ctx) -> i32 {
         return child_emit(&st);
     }
     run_child_and_merge(ctx, &st, "RQ_BIN_CHECKED", "checked", &[]);
+    // the dispatchers' real portable path: the no_std build of the library (release and debug-assertions)
+    for env_name in ["RQ_BIN_NOSTD", "RQ_BIN_NOSTD_CHECKED"] {
+        let bin = std::env::var(env_name).unwrap_or_else(|_| machinery_failure(&format!("{} not set (run through ./check)", env_name)));
+        let out = std::process::Command::new(&bin).arg("--kernel-grid").arg("320").output().unwrap_or_else(|e| machinery_failure(&format!("cannot run {}: {}", bin, e)));
+        let so = String::from_utf8_lossy(&out.stdout).to_string();
+        let done = so.lines().find(|l| l.starts_with("GRID-DONE"));
+        let tag = if env_name.ends_with("CHECKED") { "checked/no_std" } else { "release/no_std" };
+        for l in so.lines().filter(|l| l.starts_with("GRID-FAIL")) {
+            st.violation(format!("nostd-grid:{}", l), format!("public dispatcher in the no_std build: {}", l), json!({"nostd_grid": env_name}));
+        }
+        match done {
+            Some(d) => {
+                let calls: u64 = d.split("calls=").nth(1).and_then(|x| x.split_whitespace().next()).and_then(|x| x.parse().ok()).unwrap_or(0);
+                st.eval(calls);
+                st.count(&format!("calls_dispatcher_{}", tag), calls);
+            }
+            None => {
+                // a panic/crash of the portable path on valid operands
+                let se = String::from_utf8_lossy(&out.stderr).to_string();
+                st.violation(format!("nostd-grid-crash:{}", env_name), format!("kernel grid through the public dispatchers crashed in the {} build: {}", tag, se.lines().rev().take(5).collect::<Vec<_>>().join(" | ")), json!({"nostd_grid": env_name}));
+            }
+        }
+    }
     let c = Case { op: Op::Fma, kind: vk::AVX2, len: 67, doff: 63, soff: 33, dcontent: "pos".into(), scontent: "lcg".into(), scalar: 0x1D };
     st.sample(c.json());
     let c = Case { op: Op::FmaBin, kind: vk::AVX512, len: 96, doff: 1, soff: 0, dcontent: "lcg".into(), scontent: "alt3".into(), scalar: 0xFF };
@@ -194,10 +229,10 @@ pub fn run(ctx: &Ctx) -> i32 {
     let ml = 320;
     finish(ctx, &st, Finish {
         level: "exploration",
-        rule: format!("every compiled kernel (avx512, avx2, ssse3, portable, each called individually through the hook) and the public dispatcher x 4 operations x every length 0..={} x destination offsets {} x source offsets {{0,1,7,8,31,33,63}} x contents x scalars {{0,1,2,0x1D,0x80,0xFF}} (grid A); all 256 scalars on lengths 0..=70,127..=130,191..=193,255..=257,320 (grid B); 52 rotations x 256 scalars so that every lane sees every byte value with every scalar (grid C); one-hot at every position for len<=130 (grid D); packed bit vectors of every length (all padding-bit counts) with patterns 00/ff/alt/alt3/lcg (grid E). Oracle: element-wise reference field arithmetic, canaries around the destination, source unchanged. Repeated in the debug-assertions build (documented scalar preconditions of the dispatchers respected there). distinct_nontrivial = (operation, kernel, length) units.", ml, "0..63 (debug-assertions build in the quick tier: 11 offsets, lengths <= 256)"),
+        rule: format!("every compiled kernel (avx512, avx2, ssse3, portable, each called individually through the hook) and the public dispatcher x 4 operations x every length 0..={} x destination offsets {} x source offsets {{0,1,7,8,31,33,63}} x contents x scalars {{0,1,2,0x1D,0x80,0xFF}} (grid A); all 256 scalars on lengths 0..=70,127..=130,191..=193,255..=257,320 (grid B); 52 rotations x 256 scalars so that every lane sees every byte value with every scalar (grid C); one-hot at every position for len<=130 (grid D); packed bit vectors of every length (all padding-bit counts) with patterns 00/ff/alt/alt3/lcg (grid E). Oracle: element-wise reference field arithmetic, canaries around the destination, source unchanged. Repeated in the debug-assertions build (documented scalar preconditions of the dispatchers respected there), and through the public dispatchers of the no_std build of the library (their real portable path; lengths 0..=320, offsets {{0,1,7}}, all scalars on boundary lengths, bit patterns incl. one-hot). distinct_nontrivial = (operation, kernel, length) units.", ml, "0..63 (debug-assertions build in the quick tier: 11 offsets, lengths <= 256)"),
         exhaustive: false,
         assumptions: vec!["NEON kernels cannot execute on this x86 host".into(), "lengths above 320 are not enumerated".into()],
         extra: Map::new(),
-        must_be_nonzero: vec!["calls_dispatcher", "calls_avx512", "calls_avx2", "calls_ssse3", "calls_portable", "calls_len>=64_avx512", "calls_len>=64_avx2", "calls_with_scalar_tail", "gridC_lane_value_units", "gridE_binary_units", "checked/calls_avx2"],
+        must_be_nonzero: vec!["calls_dispatcher", "calls_avx512", "calls_avx2", "calls_ssse3", "calls_portable", "calls_len>=64_avx512", "calls_len>=64_avx2", "calls_with_scalar_tail", "gridC_lane_value_units", "gridE_binary_units", "checked/calls_avx2", "calls_dispatcher_release/no_std", "calls_dispatcher_checked/no_std"],
     }, replay)
 }
